@@ -30,13 +30,15 @@ BOUNDS = {"quick": {"smax": 2, "smax1": 3}, "thorough": {"smax": 5, "smax1": 5}}
 B = {}
 BOUNDS_TEXT = ("s-expressions from a menu: 14 node kinds (module, class, function, <class name as tag>, method, "
                "instance, reference, dereference, list, tuple, dictionary, persistent, unpersistable, atom) x 9 "
-               "names (allowed module, os, os.system, subprocess.Popen, builtins.eval, allowed class, class of the "
-               "allowed module that is not allowed, registered unjellyable, function of the allowed module); "
+               "names (configurations 0-2: allowed module, os, os.system, subprocess.Popen, builtins.eval, allowed "
+               "class, class of the allowed module that is not allowed, registered unjellyable, function of the "
+               "allowed module; configuration 3: package vc45pkg, os.system, vc45pkg.f, vc45pkg.ok_sub.f, "
+               "vc45pkg.hidden_sub.f, vc45pkg.hidden_sub.Cls, vc45pkg.ok_sub.Cls, vc45mod.Allowed, vc45mod.func); "
                "shapes (which child positions hold a symbolic node, all others a fixed atom): 0 = single node, "
                "1 = root + first child, 2 = root + second child, 3 = depth 2 chain root -> first child -> its "
                "first child, 4 = root + both children, 5 = root -> first child -> its second child; quick: shapes "
                "0-2 for every configuration and shape 3 for the configuration that allows most (1); thorough: "
-               "shapes 0-5 everywhere; 3 SecurityOptions configurations; round trip of 4 object graphs "
+               "shapes 0-5 everywhere; 4 SecurityOptions configurations; round trip of 4 object graphs "
                "(shared reference, list cycle, instance cycle, nested containers) with a symbolic int leaf and a "
                "string leaf from a menu of 3")
 OUTSIDE = ["names outside the menu, in particular names that reach a forbidden object *through* an allowed module "
@@ -46,14 +48,18 @@ OUTSIDE = ["names outside the menu, in particular names that reach a forbidden o
            "set/frozenset/decimal/datetime tags; persistentLoad callbacks; the banana wire encoding",
            "DummySecurityOptions (allows everything by definition)"]
 ASSUMPTIONS = ["for the duration of each harness call jelly's module-level names namedAny, namedObject, __import__ "
-               "and _createBlank are rebound to recording wrappers; names below the synthetic module 'vc45mod' are "
-               "resolved by the real function, every other name is NOT resolved (a harmless dummy is returned) "
+               "and _createBlank are rebound to recording wrappers; names below the synthetic module 'vc45mod' "
+               "and below the synthetic package 'vc45pkg' are resolved by the real function, every other name is NOT resolved (a harmless dummy is returned) "
                "but recorded - any such record is a violation",
                "the synthetic module vc45mod (classes Allowed, Hidden, Reg, function func) is registered in "
                "sys.modules and Reg in jelly.unjellyableRegistry once, at import of this props module",
                "policy configurations: 0 = allowInstancesOf(Allowed); 1 = the same plus "
                "allowTypes('function', 'method'); 2 = allowBasicTypes() + allowModules('vc45mod') only (no "
-               "module/class/instance types)"]
+               "module/class/instance types); 3 = allowBasicTypes() + allowTypes('function', 'class', 'method') + "
+               "allowModules('vc45pkg', 'vc45pkg.ok_sub') where vc45pkg is a synthetic package (sys.modules "
+               "entries) that also has a submodule vc45pkg.hidden_sub which is never allowed",
+               "a lookup is judged by the module that OWNS the object that came back (__module__ / module "
+               "__name__), not only by the name asked for"]
 EXPLANATION = ("the solver enumerates node kinds and names of a small s-expression grammar; the real unjelly runs "
                "with instrumented name resolution, and every resolution, import and instantiation must be covered "
                "by the configured policy whether or not unjelly raises")
@@ -93,7 +99,7 @@ def _mkmod():
     def func():
         return 3
 
-    for o in (Allowed, Hidden, Reg, func):
+    for o in (Allowed, Hidden, Reg, func, Allowed.meth, Hidden.meth):
         o.__module__ = MODNAME
         o.__qualname__ = o.__name__
         setattr(m, o.__name__, o)
@@ -105,8 +111,54 @@ def _mkmod():
 MOD = _mkmod()
 Allowed, Hidden, Reg, func = MOD.Allowed, MOD.Hidden, MOD.Reg, MOD.func
 
-NAMES = [b"vc45mod", b"os", b"os.system", b"subprocess.Popen", b"builtins.eval",
-         b"vc45mod.Allowed", b"vc45mod.Hidden", b"vc45mod.Reg", b"vc45mod.func"]
+PKG = "vc45pkg"
+
+
+def _mkpkg():
+    """package vc45pkg with submodules ok_sub (allowed by configuration 3) and hidden_sub (never
+    allowed); sys.modules entries only"""
+    if PKG in sys.modules:
+        return sys.modules[PKG]
+    mods = {}
+    for name in (PKG, PKG + ".ok_sub", PKG + ".hidden_sub"):
+        m = types.ModuleType(name)
+
+        def f():
+            return 4
+
+        class Cls:
+            def meth(self):
+                return 5
+
+            def __new__(cls, *a):
+                INSTANTIATED.append(cls)
+                return object.__new__(cls)
+
+        for o in (f, Cls, Cls.meth):
+            o.__module__ = name
+            o.__qualname__ = o.__name__
+        m.f = f
+        if name != PKG:
+            m.Cls = Cls
+        mods[name] = m
+    mods[PKG].__path__ = []
+    mods[PKG].ok_sub = mods[PKG + ".ok_sub"]
+    mods[PKG].hidden_sub = mods[PKG + ".hidden_sub"]
+    sys.modules.update(mods)
+    return mods[PKG]
+
+
+PKGMOD = _mkpkg()
+SAFE_ROOTS = (MODNAME, PKG)      # names below these are really resolved, everything else is not
+
+# name menus (same length): configurations 0-2 talk about the flat module, 3 about the package
+_NAMES_FLAT = [b"vc45mod", b"os", b"os.system", b"subprocess.Popen", b"builtins.eval",
+               b"vc45mod.Allowed", b"vc45mod.Hidden", b"vc45mod.Reg", b"vc45mod.func"]
+_NAMES_PKG = [b"vc45pkg", b"os.system", b"vc45pkg.f", b"vc45pkg.ok_sub.f", b"vc45pkg.hidden_sub.f",
+              b"vc45pkg.hidden_sub.Cls", b"vc45pkg.ok_sub.Cls", b"vc45mod.Allowed", b"vc45mod.func"]
+NAMES = _NAMES_FLAT
+NAMES_BY_CFG = {0: _NAMES_FLAT, 1: _NAMES_FLAT, 2: _NAMES_FLAT, 3: _NAMES_PKG}
+NCFG = 4
 (T_MODULE, T_CLASS, T_FUNCTION, T_CLASSTAG, T_METHOD, T_INSTANCE, T_REFERENCE, T_DEREFERENCE, T_LIST, T_TUPLE,
  T_DICT, T_PERSISTENT, T_UNPERSISTABLE, T_ATOM) = range(14)
 NTAGS = 14
@@ -115,8 +167,10 @@ TYPES_OK = {
     0: BASIC + [b"instance", b"class", b"module", b"vc45mod.Allowed"],
     1: BASIC + [b"instance", b"class", b"module", b"vc45mod.Allowed", b"function", b"method"],
     2: BASIC,
+    3: BASIC + [b"function", b"class", b"method"],
 }
-CLASSES_OK = {0: [Allowed], 1: [Allowed], 2: []}
+CLASSES_OK = {0: [Allowed], 1: [Allowed], 2: [], 3: []}
+MODS_OK = {0: [MODNAME], 1: [MODNAME], 2: [MODNAME], 3: [PKG, PKG + ".ok_sub"]}
 
 
 def _taster(cfg):
@@ -125,10 +179,23 @@ def _taster(cfg):
         t.allowInstancesOf(Allowed)
         if cfg == 1:
             t.allowTypes("function", "method")
-    else:
+    elif cfg == 2:
         t.allowBasicTypes()
         t.allowModules(MODNAME)
+    else:
+        t.allowBasicTypes()
+        t.allowTypes("function", "class", "method")
+        t.allowModules(PKG, PKG + ".ok_sub")
     return t
+
+
+def _owner(x):
+    """name of the module that owns a resolved object (None for the dummies)"""
+    if isinstance(x, types.ModuleType):
+        return x.__name__ if x is not DUMMY_MODULE else None
+    if x is _harmless:
+        return None
+    return getattr(x, "__module__", None)
 
 
 # twisted.spread.jelly is wrapped in a deprecation proxy: this is the real module namespace
@@ -150,26 +217,29 @@ class _Recorder:
         self.saved = {}
 
     def _safe(self, name):
-        return name == MODNAME or name.startswith(MODNAME + ".")
+        return any(name == r or name.startswith(r + ".") for r in SAFE_ROOTS)
 
     def __enter__(self):
         real_any, real_obj, real_blank = G["namedAny"], G["namedObject"], G["_createBlank"]
 
         def namedAny(name):
-            self.rec.append(("namedAny", name))
-            return real_any(name) if self._safe(name) else _harmless
+            r = real_any(name) if self._safe(name) else _harmless
+            self.rec.append(("namedAny", name, _owner(r)))
+            return r
 
         def namedObject(name):
-            self.rec.append(("namedObject", name))
-            return real_obj(name) if self._safe(name) else _harmless
+            r = real_obj(name) if self._safe(name) else _harmless
+            self.rec.append(("namedObject", name, _owner(r)))
+            return r
 
         def imp(name, *a, **k):
-            self.rec.append(("import", name))
-            return MOD if name == MODNAME else DUMMY_MODULE
+            r = sys.modules[name] if self._safe(name) and name in sys.modules else DUMMY_MODULE
+            self.rec.append(("import", name, _owner(r)))
+            return r
 
         def blank(cls):
             if isinstance(cls, type):
-                self.rec.append(("blank", cls))
+                self.rec.append(("blank", cls, None))
             return real_blank(cls)
 
         for k, v in (("namedAny", namedAny), ("namedObject", namedObject), ("__import__", imp),
@@ -218,8 +288,9 @@ NSLOTS = 5
 class _Builder:
     """node slots (heap numbering): 0 root, 1/2 its children, 3/4 the children of node 1"""
 
-    def __init__(self, tg, nm, shape):
+    def __init__(self, tg, nm, shape, names=None):
         self.tg, self.nm, self.shape = tg, nm, shape
+        self.names = names or NAMES
         self.tags = []        # (tag, name) of every node built
 
     def child(self, slot, which, state=False):
@@ -231,7 +302,7 @@ class _Builder:
         tag = _conc(self.tg[slot], NTAGS)
         name = None
         if tag in (T_MODULE, T_CLASS, T_FUNCTION, T_CLASSTAG):
-            name = NAMES[_conc(self.nm[slot], len(NAMES))]
+            name = self.names[_conc(self.nm[slot], len(self.names))]
         self.tags.append((tag, name))
         if tag == T_MODULE:
             return [b"module", name]
@@ -276,17 +347,17 @@ def _result_ok(x, cfg, depth=0):
         return all(_result_ok(y, cfg, depth + 1) for y in x)
     if type(x) is dict:
         return all(_result_ok(k, cfg, depth + 1) and _result_ok(v, cfg, depth + 1) for k, v in x.items())
-    if x is MOD:
-        return b"module" in TYPES_OK[cfg]
+    if isinstance(x, types.ModuleType):
+        return x.__name__ in MODS_OK[cfg] and b"module" in TYPES_OK[cfg]
     if isinstance(x, type):
-        # class objects: allowed classes, or (function tag) any attribute of the allowed module
-        return x in CLASSES_OK[cfg] or (b"function" in TYPES_OK[cfg] and x in (Allowed, Hidden, Reg))
-    if x is func:
-        return b"function" in TYPES_OK[cfg]
+        # class objects: allowed classes, or (function tag) any attribute of an allowed module
+        return x in CLASSES_OK[cfg] or (b"function" in TYPES_OK[cfg] and _owner(x) in MODS_OK[cfg])
     if isinstance(x, types.MethodType):
         return b"method" in TYPES_OK[cfg] and _result_ok(x.__self__, cfg, depth + 1)
     if isinstance(x, types.FunctionType):
-        return x in (Allowed.meth, Hidden.meth) and b"method" in TYPES_OK[cfg]
+        if x is _harmless or _owner(x) not in MODS_OK[cfg]:
+            return False
+        return b"function" in TYPES_OK[cfg] or b"method" in TYPES_OK[cfg]
     if isinstance(x, (J.Unpersistable, crefutil.NotKnown)):
         return True
     if type(x) in CLASSES_OK[cfg] or type(x) is Reg:
@@ -295,16 +366,18 @@ def _result_ok(x, cfg, depth=0):
 
 
 def _records_ok(rec, cfg, tags):
+    """every import / lookup is for a tag type the policy allows and lands in a module the policy
+    allows: both the module named and the module that actually owns what came back"""
     dotted = any(t == T_CLASSTAG for t, _ in tags)
-    for kind, what in rec:
+    for kind, what, owner in rec:
         if kind == "import":
-            if what != MODNAME or b"module" not in TYPES_OK[cfg]:
+            if what not in MODS_OK[cfg] or owner not in MODS_OK[cfg] or b"module" not in TYPES_OK[cfg]:
                 return False
         elif kind == "namedAny":
-            if _modpart(what) != MODNAME or b"function" not in TYPES_OK[cfg]:
+            if owner not in MODS_OK[cfg] or b"function" not in TYPES_OK[cfg]:
                 return False
         elif kind == "namedObject":
-            if _modpart(what) != MODNAME:
+            if owner not in MODS_OK[cfg] or _modpart(what) not in MODS_OK[cfg]:
                 return False
             if b"class" not in TYPES_OK[cfg] and not dotted:
                 return False
@@ -319,13 +392,13 @@ def _records_ok(rec, cfg, tags):
 
 def policy(cfg: int, shape: int, tg: List[int], nm: List[int]) -> bool:
     """
-    pre: 0 <= cfg <= 2 and len(tg) == NSLOTS and len(nm) == NSLOTS
+    pre: 0 <= cfg <= 3 and len(tg) == NSLOTS and len(nm) == NSLOTS
     pre: 0 <= shape <= B['smax'] or (cfg == 1 and 0 <= shape <= B['smax1'])
     post: _
     """
-    cfg = _conc(cfg, 3)
+    cfg = _conc(cfg, NCFG)
     shape = _conc(shape, 6)
-    bld = _Builder(tg, nm, shape)
+    bld = _Builder(tg, nm, shape, NAMES_BY_CFG[cfg])
     sexp = bld.node(0)
     taster = _taster(cfg)
     raised = None
@@ -399,7 +472,7 @@ def _policy_shards(tier):
     b = BOUNDS[tier]
     containers = (T_METHOD, T_INSTANCE, T_REFERENCE, T_LIST, T_TUPLE, T_DICT)
     out = []
-    for c in range(3):
+    for c in range(NCFG):
         top = b["smax1"] if c == 1 else b["smax"]
         for sh in range(top + 1):
             base = ("cfg == %d" % c, "shape == %d" % sh)
